@@ -3,6 +3,7 @@ from propsdef import KERNEL, CORR, HARNESS
 PROP = {
     "needs_binary": True,
     "obligations": [
+        "Xt.Props.C04Sites.sites_covered_library",
         "Xt.Props.C18.no_panic_msgsize",
         "Xt.Props.C18.recursion_bounded",
         "detect_total",
